@@ -38,7 +38,7 @@ MANIFEST = {
             "harness/driver diff. No open finding. Not claimed: mmx on 32-bit, 64-bit integers under GCC regparm, call-site marshalling inside the "
             "register allocator (C05), shuffle_correct for stack destinations / non-integer groups without the selection hypothesis, byte overlap of stack slots (movaps stores 16 bytes for a float).",
 }
-MODS = ["AsmjitVerif.Props.C06"]
+MODS = ["AsmjitVerif.Props.C06", "AsmjitVerif.Props.C06Invoke"]
 
 INTS = [32, 33, 34, 35, 36, 37, 38, 39, 40, 41]
 FLTS = [42, 43]
@@ -283,7 +283,11 @@ def run(res):
     # ---- argument shuffle -------------------------------------------------------------------------------------------
     sh_corr = shf.run_shuffle(res, h, rng)
 
-    res.coverage["evaluations"] = res.coverage["fd_evaluations"] + res.coverage.get("sh_evaluations", 0)
+    # ---- invoke lowering (x86 Compiler) ---------------------------------------------------------------------------
+    import props.c06_invoke as ivk
+    iv_corr = ivk.run_invoke(res, h, rng)
+
+    res.coverage["evaluations"] = res.coverage["fd_evaluations"] + res.coverage.get("sh_evaluations", 0) + res.coverage.get("iv_evaluations", 0)
     res.coverage["distinct_nontrivial"] = len({o for o, r in zip(ops, impl) if r.startswith("ok")}) + res.coverage.get("sh_nontrivial", 0)
     res.coverage["rule"] = ("fd: per (target, convention): uniform/alternating signatures up to 32 arguments, 16..64-byte vectors after 0..3 "
                             "eight-byte stack slots, by-reference vectors at positions 0..31, small Apple stack arguments, varargs at every index, "
@@ -306,6 +310,12 @@ def run(res):
         res.violation("correspondence model/implementation differs at %r: impl=%s model=%s (%d differing ops); the machine monitor is good "
                       "on them" % (o, a, b, n), {"ops": [o], "impl": a, "model": b,
                                                  "unchecked": "correspondence Model/ArgShuffle.lean ~ emithelper.cpp/funcargscontext.cpp"},
+                      False, key="corr")
+    if iv_corr and not fd_corr and not sh_corr and not unknown_found:
+        o, a, b, n = iv_corr
+        res.violation("correspondence model/implementation differs at %r: impl=%s model=%s (%d differing ops); the machine monitor is good "
+                      "on them" % (o, a[:600], b[:600], n), {"ops": [o], "impl": a, "model": b,
+                                                 "unchecked": "correspondence Model/InvokeLower.lean ~ x86rapass.cpp on_before_invoke"},
                       False, key="corr")
     if broken:
         # always reported (known findings among res.violations must not hide a failed proof build)
